@@ -1,5 +1,6 @@
 import CobraModel.Lemmas.Formulations
 import CobraModel.Model.Medium
+import CobraModel.Lemmas.AuxProb
 /-!
 # C18 — medium get/set are inverse; a minimal medium is sufficient and minimal
 
@@ -148,5 +149,40 @@ example : getMedium demoEx = [("EX_a", 10), ("EX_b", 7), ("EX_c", 1)] := by deci
 example : getMedium (setMedium demoEx [("EX_b", 4), ("EX_c", 0)]) = [("EX_b", 4)] := by decide +kernel
 example : bigM demoEx = 10 := by decide +kernel
 example : bigM [("EX_p", ⟨false, 0, 1000⟩), ("EX_q", ⟨true, -20, 0⟩)] = 1000 := by decide +kernel
+
+
+/-! ### the whole problems `minimal_medium` solves
+
+`AuxM.Net.mediumLinear` / `AuxM.Net.mediumMip`: the flux-balance problem, the row `medium_obj_constraint` (objective at least the requested
+value), and either the sum of the import variables as objective or one binary indicator per exchange with `import − big_m · indicator ≤ 0`
+and the sum of the indicators as objective.  Compared entry by entry with the raw GLPK problem (`harness/auxcorr.py`). -/
+open AuxM in
+/-- **minimal medium, linear**: at any optimum the net fluxes are feasible and reach the requested objective value with the smallest total
+import; the optimal value is that total -/
+theorem medium_problem_optimum (n : Net) (hp : n.Proper) (exch : List (Nat × Bool)) (hex : ∀ e ∈ exch, e.1 ∈ n.idx) (q : Rat)
+    (x : V → Rat) (h : (n.mediumLinear exch q).IsOpt x) :
+    n.Feasible (netOf x) ∧ q ≤ n.objVal (netOf x) ∧ (n.mediumLinear exch q).value x = totalImport exch (netOf x) ∧
+    ∀ v, n.Feasible v → q ≤ n.objVal v → totalImport exch (netOf x) ≤ totalImport exch v :=
+  mediumLinear_optimum n hp exch hex q x h
+
+open AuxM in
+/-- **minimal medium, fewest components**: at any optimum of the MIP the net fluxes are feasible and reach the requested objective value, and
+no flux vector that does so (imports below the big-M constant) uses fewer components; the optimal value is the number of components -/
+theorem medium_mip_problem_optimum (n : Net) (hp : n.Proper) (exch : List (Nat × Bool)) (hex : ∀ e ∈ exch, e.1 ∈ n.idx)
+    (hnd : (exch.map (·.1)).Nodup) (q M : Rat) (x : V → Rat) (h : (n.mediumMip exch q M).IsOpt x)
+    (hxM : ∀ e ∈ exch, importOf (netOf x) e ≤ M) :
+    n.Feasible (netOf x) ∧ q ≤ n.objVal (netOf x) ∧ (n.mediumMip exch q M).value x = components exch (netOf x) ∧
+    ∀ v, n.Feasible v → q ≤ n.objVal v → (∀ e ∈ exch, importOf v e ≤ M) → components exch (netOf x) ≤ components exch v :=
+  mediumMip_optimum n hp exch hex hnd q M x h hxM
+
+open AuxM in
+/-- the big-M constant of `add_mip_obj` (largest bound magnitude over the exchanges) bounds every import of a feasible flux vector, so the
+side condition above holds for every feasible flux vector when the exchange bounds are finite -/
+theorem import_below_big_m (n : Net) (exch : List (Nat × Bool)) (hex : ∀ e ∈ exch, e.1 ∈ n.idx)
+    (hfin : ∀ e ∈ exch, (n.rx e.1).lb = .fin (EB.toRat (n.rx e.1).lb) ∧ (n.rx e.1).ub = .fin (EB.toRat (n.rx e.1).ub))
+    (v : Nat → Rat) (hv : n.Feasible v) : ∀ e ∈ exch, importOf v e ≤ n.bigM exch := import_le_bigM n exch hex hfin v hv
+
+example : AuxM.importOf (fun _ => (-3 : Rat)) (0, true) = 3 := by decide +kernel
+example : AuxM.importOf (fun _ => (-3 : Rat)) (0, false) = 0 := by decide +kernel
 
 end C18
